@@ -37,6 +37,10 @@ claimed = {
    text="Explicit-state exploration of request shapes: for every target file of every spec, all generate-subsets containing it x all permutations of file_to_generate x all topological orders of proto_file x unrelated extra files present/absent x parameter spellings, on all five plugins (7 configurations); every variant must reproduce the singleton run's bytes. Hash-seed nondeterminism is owned instead of sampled: every range-over-map site executed in the generators is driven through all permutations of its keys by a build overlay (map-order controller).",
    note="Assumes " + TB + ". Nondeterminism inside third-party libraries (yaml/json encoders) is observed only through repeated identical runs.",
    tech="explicit enumeration of request shapes and of map-iteration orders (owned via build overlay), byte comparison", ref="DESIGN.md section 8 C15"),
+ "C09": dict(
+   text="Model-based exhaustive exploration of the header gate of the generated Go server: for every RPC with header declarations, every must-accept exemplar of the header model M-hdr, and every non-empty subset of the required headers made bad in every way (absent, empty, each must-reject exemplar) x body valid/malformed, sent as raw requests through the byte-level wire; the model transition (400 + exact violation set + handler not run + no body read before the verdict / not rejected) is compared on every trace.",
+   note="Trusted: M-hdr exemplar sets (values valid per the published OpenAPI type/format vs. not well-formed; values in neither set are not judged). Go server only; subsets are enumerated over at most 4 headers.",
+   tech="explicit enumeration of header-state subsets against a reference model, replayed on the generated server", ref="DESIGN.md section 8 C09"),
 }
 NA_REASON = "check not built yet (build in progress; see DESIGN.md section 14)"
 checks = []
